@@ -4,11 +4,13 @@ package c06
 import (
 	"bytes"
 	"fmt"
+	"net"
 	"sync"
 	"testing"
 	"time"
 
 	"github.com/fiorix/go-diameter/v4/diam"
+	"github.com/fiorix/go-diameter/v4/diam/datatype"
 	"github.com/fiorix/go-diameter/v4/diam/dict"
 	"pgregory.net/rapid"
 
@@ -72,7 +74,7 @@ func genCase(t *rapid.T) Case {
 	for i := 0; i < n; i++ {
 		kind := "retain"
 		if i > 0 {
-			kind = rapid.SampledFrom([]string{"retain", "read", "read", "read-goroutine", "read-conn", "write", "conn-retain", "conn-retain", "conn-read", "conn-read", "retain-odd", "reserialize"}).Draw(t, "kind")
+			kind = rapid.SampledFrom([]string{"retain", "read", "read", "read-goroutine", "read-conn", "write", "conn-retain", "conn-retain", "conn-read", "conn-read", "retain-odd", "reserialize", "unmarshal", "answer"}).Draw(t, "kind")
 		}
 		var m gen.Msg
 		m.Flags, m.Code, m.App, m.HbH, m.E2E = cat.Header(t)
@@ -136,6 +138,20 @@ func oddWire(t *rapid.T) []byte {
 		}
 	}
 	return refcodec.EncodeMessage(refcodec.Header{Version: 1, Flags: 0x80, Code: 257, HopByHop: gen.U32(t, "hbh"), EndToEnd: gen.U32(t, "e2e")}, nodes, false)
+}
+
+// reusedStruct is a destination the application keeps and fills again for every message; its
+// byte-slice fields are bound to AVPs whose decoded values are views into the message body.
+type reusedStruct struct {
+	D struct { // names of dict.Default
+		HostIP net.IP `avp:"Host-IP-Address"`
+		Raw    []byte `avp:"Host-IP-Address"`
+	}
+	G struct { // names of the generated dictionaries
+		GenAddr []byte `avp:"B-Address"`
+		GenIPv4 net.IP `avp:"B-IPv4"`
+		GenIPv6 []byte `avp:"B-IPv6"`
+	}
 }
 
 type retained struct {
@@ -203,6 +219,7 @@ func runCase(c Case) *ev.Failure {
 		return ev.Failf("harness-dict", "%v", err)
 	}
 	var kept []*retained
+	var reused reusedStruct
 	var pc *persistentConn
 	defer func() {
 		if pc != nil {
@@ -243,6 +260,30 @@ func runCase(c Case) *ev.Failure {
 				break // not accepted under this dictionary: nothing to retain
 			}
 			kept = append(kept, &retained{step: i, m: m, ref: st.Odd, str: m.String(), hdr: *m.Header, avps: avpSnapshot(m.AVP, 0)})
+		case "unmarshal":
+			// the application decodes another message into a struct it reuses for every message
+			// (per-connection state, a pool): filling that struct must not write into messages
+			// it was filled from before
+			m, err := diam.ReadMessage(bytes.NewReader(ref), p)
+			if err != nil {
+				return ev.Failf("harness-read", "step %d: reference image rejected: %v", i, err)
+			}
+			for _, r := range kept {
+				r.m.Unmarshal(&reused.D)
+				r.m.Unmarshal(&reused.G)
+			}
+			m.Unmarshal(&reused.D)
+			m.Unmarshal(&reused.G)
+		case "answer":
+			// answering a kept request (and editing the answer) must leave the request alone
+			for _, r := range kept {
+				a := r.m.Answer(2001)
+				a.NewAVP(264, 0x40, 0, datatype.DiameterIdentity("answerer.example"))
+				a.Header.CommandFlags |= 0x20
+				a.Header.HopByHopID ^= 0x55
+				var w bytes.Buffer
+				a.WriteTo(&w)
+			}
 		case "reserialize":
 			// the application relays / traces what it kept: writing a message must not alter it
 			for _, r := range kept {
